@@ -15,6 +15,7 @@ import Mathlib.Algebra.BigOperators.Group.Finset.Sigma
 import Mathlib.LinearAlgebra.Lagrange
 import Mathlib.Algebra.Polynomial.Taylor
 import Mathlib.Algebra.Polynomial.Eval.Degree
+import Mathlib.Algebra.Order.Floor.Ring
 
 namespace PygyroVerif.FieldLine
 variable {K : Type*}
@@ -228,6 +229,15 @@ theorem splineFn_linear (t : ℕ → K) (nk degree : ℕ) (c1 c2 c3 : ℕ → K)
   | some span =>
     simp only [Option.map_some, Option.getD_some, dotFrom]
     exact foldl_dot_linear c1 c2 c3 α β h _ _ 0 0 0 (by ring)
+
+theorem shifts_centre [FloorRing K] (zDist dz : K) {nL : ℕ} (hL : 0 < nL) :
+    shifts zDist dz nL (centre nL) = ⌊zDist / dz⌋ := by
+  unfold shifts stencilStart centre
+  omega
+
+theorem shifts_injOn [FloorRing K] (z zDist : K) {dz : K} (hdz : dz ≠ 0) (nL : ℕ) :
+    Set.InjOn (zPts z dz (shifts zDist dz nL)) (Finset.range nL : Set ℕ) :=
+  zPts_injOn z hdz ⌊zDist / dz⌋ nL
 end lagrange
 end PygyroVerif.FluxAdv
 
